@@ -625,6 +625,34 @@ def _lookup_witness():
                 return {'replayer': 'lookup', 'input': {'defs': _LOOKUP_DEFS, 'history': hist, 'query': q, 'expected': want}, 'output': body,
                         'why': 'expected %r%s, got %r' % (want, (' after the queries %s' % hist) if hist else '', (body.splitlines() or [''])[0] + (' / RAW ' + raw if raw else '')),
                         'cmd': '%s --defs %r %s %r' % (QUERY_BIN, _LOOKUP_DEFS, ' '.join(repr(h) for h in hist), q)}
+    # canonical names, exhaustively: every prefix x (unit, base unit, long name, defined name) [+ s] of the bundled database
+    # (about 560000 names) and of the database with the colliding definitions: the canonical name denotes what the name denotes
+    for defs_args in ([], ['--defs', _LOOKUP_DEFS]):
+        rc, so, se, dt = run([QUERY_BIN] + defs_args + ['--canon-sweep', '1'], timeout=600)
+        bad = [l for l in so.splitlines() if l.startswith('CANON-BAD')]
+        summary = [l for l in so.splitlines() if l.startswith('CANON-SWEEP')]
+        # listed findings (known_findings.json, matched per name) are reported as such and not as violations
+        import re as _re7
+        known = _known_entries('C07', 'bounded::lookup#') if defs_args else []
+        rest_bad = []
+        for l in bad:
+            for k in known:
+                if _re7.search(k['match'], l):
+                    if k['obligation'] not in known_hits.setdefault('lookup', []):
+                        known_hits['lookup'].append(k['obligation'])
+                    break
+            else:
+                rest_bad.append(l)
+        if len(bad) >= 20 and not rest_bad and summary and not summary[0].endswith('bad=%d' % len(bad)):
+            rest_bad = ['CANON-BAD (more than the 20 names printed)']
+        if bad and not rest_bad:
+            rc = 0
+        bad = rest_bad
+        if bad or not summary or rc != 0:
+            first = bad[0] if bad else (so + se)[-300:]
+            return {'replayer': 'canonsweep', 'input': {'defs': _LOOKUP_DEFS if defs_args else '', 'name': first.split(' ')[1] if bad else ''}, 'output': '\n'.join(bad[:20] + summary),
+                    'why': 'canonicalising changes what the name denotes: %s (%s)' % (first, summary[0] if summary else 'no summary'),
+                    'cmd': '%s %s --canon-sweep 1' % (QUERY_BIN, ' '.join(repr(a) for a in defs_args))}
     defs, q, want = _LOOKUP_SUBST
     rc, so, se, dt = run([QUERY_BIN, '--defs', defs, q], timeout=20)
     body = so.split('> ' + q, 1)[1].strip() if ('> ' + q) in so else so
@@ -662,6 +690,15 @@ _rp5 = replay
 
 def replay(rep):  # noqa: F811
     w = rep.get('replay') or {}
+    if w.get('replayer') == 'canonsweep':
+        if build_core() != 0:
+            return 0
+        i = rep['input']
+        rc, so, se, dt = run([QUERY_BIN] + (['--defs', i['defs']] if i.get('defs') else []) + ['--canon-sweep', '1'], timeout=600)
+        print(so)
+        ok = rc == 0 and 'CANON-BAD' not in so
+        print('replay: %s' % ('not reproduced' if ok else 'violation reproduced on the real code'))
+        return 0 if ok else 1
     if w.get('replayer') == 'lookup':
         if build_core() != 0:
             return 0
@@ -1303,6 +1340,17 @@ def _loader_witness():
         if rc == 124 or rc not in (0, 1) or 'PANIC' in so or '2000 meter' not in so:
             return {'replayer': 'loader', 'input': {'date_patterns': dates, 'expected': 'the pattern file loads (or is refused) and the context still answers'}, 'output': one_line(so + se, 300),
                     'why': 'date pattern text %r: %s' % (dates, 'loading does not return within 20 s' if rc == 124 else one_line(so + se, 200)), 'cmd': '%s --dates %r %r' % (QUERY_BIN, dates, '2 km -> m')}
+    # definitions loaded one after another: a later load may redefine a unit in terms of one of its own aliases; each load is
+    # acyclic on its own, the alias graph of the registry is not - queries that name the units must still be answered
+    for second in ('zca zcb\n', 'zca kzcb\n', 'zca 1 zcb\n', 'zcb zca\n', 'zca zcbs\n', 'zca zcc\nzcc zcb\n'):
+        first_text = 'zca m\nzcb zca\n'
+        qs = ['2 km -> m', '3 zca', '3 zcb -> zca', 'zca', 'zcb', '3 kzcb -> kzca', 'units for zca']
+        rc, so, se, dt = run([QUERY_BIN, '--defs', first_text, '--defs', second] + qs, timeout=30)
+        answered = so.count('\n> ') + (1 if so.startswith('> ') else 0)
+        if rc == 124 or rc not in (0, 1) or 'PANIC' in so or '2000 meter' not in so or answered < len(qs):
+            why = 'queries do not return within 30 s' if rc == 124 else ('status %s, %d of %d queries answered: %s' % (rc, answered, len(qs), one_line((se or so)[-300:], 200)))
+            return {'replayer': 'loader', 'input': {'definitions': first_text, 'second_load': second, 'expected': 'both loads return and the context still answers'}, 'output': one_line(so + se, 300),
+                    'why': 'definitions %r then %r: %s' % (first_text, second, why), 'cmd': '%s --defs %r --defs %r %s' % (QUERY_BIN, first_text, second, ' '.join(repr(q) for q in qs))}
     cases = _loader_cases()
     with _TPE(max_workers=12) as ex:
         for r in ex.map(one, cases):
@@ -1346,7 +1394,9 @@ def replay(rep):  # noqa: F811
         print('definitions: %r' % text[:300])
         print(so[:1500] if rc != 124 else 'TIMEOUT')
         w2 = _loader_witness()
-        bad = bool(w2 and w2['input']['definitions'] == text)
+        bad = bool(w2 and w2['input']['definitions'] == text and w2['input'].get('second_load') == rep['input'].get('second_load'))
+        if bad and w2['input'].get('second_load'):
+            print('second load: %r\n%s' % (w2['input']['second_load'], w2.get('why')))
         print('replay: %s' % ('violation reproduced on the real code' if bad else 'not reproduced'))
         return 1 if bad else 0
     return _rp14(rep)
